@@ -130,6 +130,18 @@ impl Story {
 
     /// Loads a previously saved state in JSON format.
     pub fn load_state(&mut self, json_state: &str) -> Result<(), StoryError> {
+        // Loading overwrites the state piece by piece, so try the text on a
+        // scratch state first: a save that is rejected must leave the story
+        // exactly as it was.
+        let mut scratch = StoryState::new(
+            self.main_content_container.clone(),
+            self.list_definitions.clone(),
+        );
+        scratch
+            .variables_state
+            .copy_default_globals_from(&self.get_state().variables_state);
+        scratch.load_json(json_state)?;
+
         self.get_state_mut().load_json(json_state)
     }
 
